@@ -45,6 +45,7 @@ func runC06(r *simrt.Run) {
 	wl := nomsim.NewWorkload(w, mode)
 	wl.MaxOps = 1 + t.Choose(5)
 	f := nomsim.NewFork(w, wl, t.Choose(6), true, true)
+	f.Swing = t.Bool()
 	common := 3 + t.Choose(30)
 	split := 2 + t.Choose(40)
 	if r.Tier == "thorough" {
@@ -195,7 +196,7 @@ func runC06(r *simrt.Run) {
 				if b.BlockType == 4 { // contract send: travels inside its receive
 					continue
 				}
-				if err := y.Bridge.AddAccountBlocks([]*nom.AccountBlock{b}); err != nil {
+				if err := y.Bridge.AddAccountBlocks([]*nom.AccountBlock{b}); err != nil && !poolPriorityRefusal(err) {
 					r.Fail("pool-trace", "unacceptable-block", "%s: block %v/%d left in %s's pool is refused by a fresh node: %v", stage, b.Address, b.Height, x.Name, err)
 				}
 				r.Probe("pool-block-checked")
